@@ -43,6 +43,10 @@ def status_rows():
                             out.append({'kind': 'status', 'top': top, 'sub': sub, 'msg': msg, 'assertion': assertion, 'rsigned': rsigned, 'version': '2.0', 'history': 'logout-response-first'})
                             if rsigned:
                                 out.append({'kind': 'status', 'top': top, 'sub': sub, 'msg': msg, 'assertion': assertion, 'rsigned': False, 'version': '2.0', 'entry': 'attrq'})
+    # two Status elements: whichever a reader picks, a response that carries a non-Success Status must not yield an identity
+    for first, second in (('Responder', 'Success'), ('Success', 'Responder'), ('Requester', 'Success')):
+        for rsigned in (True, False):
+            out.append({'kind': 'status', 'top': first, 'sub': None, 'msg': None, 'assertion': True, 'rsigned': rsigned, 'version': '2.0', 'second_status': second})
     for v in VERSIONS:
         for top in ('Success', 'Requester'):
             for assertion in (False, True):
@@ -75,6 +79,8 @@ def run_response(case):
     else:
         r['status'] = {'code': _uri(case['top']), 'sub': _uri(case['sub']), 'message': case['msg']}
     alist = [a] if case['assertion'] else []
+    if case.get('second_status'):
+        r['trailing_status'] = {'code': _uri(case['second_status'])}
     if attrq:
         a['authn'] = []
         r['destination'] = None
@@ -82,7 +88,7 @@ def run_response(case):
     else:
         doc = build.render(r, alist, sign_response=1 if case['rsigned'] else None, sign_assertions=1)
         v = spside.deliver(sp, doc)
-    ok_status = case['top'] == 'Success'
+    ok_status = case['top'] == 'Success' and case.get('second_status') in (None, 'Success')
     ok_version = case['version'] == '2.0'
     if v[0] == 'accept':
         if not ok_status or not ok_version:
@@ -92,6 +98,8 @@ def run_response(case):
             raise Violation('accepted-without-assertion', 'Success response without assertion accepted')
         return 'accept', case['sub'] is not None or case['msg'] is not None
     # rejected
+    if case.get('second_status'):
+        return 'reject|two-status-elements', True
     if ok_status and ok_version and case['assertion']:
         raise Violation('success-rejected', 'Success/2.0 response with a valid signed assertion rejected: %s %s' % (v[1], v[2]))
     if ok_version and not ok_status and case['top'] is not None:
